@@ -30,8 +30,11 @@ def oracle_bs(cap, lines):
     for l in lines:
         t = l.split(" "); d = _kv(l)
         if t[0] == "ws":
-            bits = []; wc = 0
-            if d.get("cursor") != "0": return "a fresh write stream reports cursor %s" % d.get("cursor")
+            start = int(t[1]) if len(t) > 1 and t[1].isdigit() else 0
+            bits = [0] * start; wc = start                     # opened at a cursor: everything before it reads as zero (the constructor clears the buffer)
+            if d.get("cursor") != str(start): return "a write stream opened at %d reports cursor %s" % (start, d.get("cursor"))
+        elif t[0] == "dirty":
+            continue
         elif t[0] == "w":
             w = int(t[1]); v = int(t[2])
             bits += [(v >> j) & 1 for j in range(w)]; wc += w
@@ -43,7 +46,7 @@ def oracle_bs(cap, lines):
             if _ret(l) != ("10" if e else "01"): return "operator== / operator!= answer %s for buffers %s and %s" % (_ret(l), packed(), snap)
             continue
         elif t[0] == "rs":
-            rc = 0
+            rc = int(t[1]) if len(t) > 1 and t[1].isdigit() else 0
         elif t[0] == "r":
             w = int(t[1])
             exp = sum(b << j for j, b in enumerate((bits + [0] * (rc + w))[rc:rc + w])); rc += w
@@ -75,6 +78,13 @@ def oracle_ba(cap, lines):
         elif name == "andq": pass          # operator&: "every unit has a common bit" - compared with the model only
         elif name == "andall": pass
         elif name != "init": continue
+        if "nz" in d:            # large arrays print their non-zero storage units as unit:byte
+            by = {}
+            for i in s: by[i // 8] = by.get(i // 8, 0) | (1 << (i % 8))
+            expnz = "".join("%d:%d," % (u, by[u]) for u in sorted(by))
+            if d.get("nz") != expnz: return "after '%s' the storage units are %s, expected %s" % (" ".join(t[:2]), d.get("nz"), expnz)
+            if d.get("empty") != ("0" if s else "1"): return "after '%s' empty() = %s with members %s" % (" ".join(t[:2]), d.get("empty"), sorted(s)[:10])
+            continue
         exp = "".join("1" if i in s else "0" for i in range(cap))
         if d.get("bits") != exp: return "after '%s' the members are %s, expected %s" % (" ".join(t[:2]), d.get("bits"), exp)
         if d.get("empty") != ("0" if s else "1"): return "after '%s' empty() = %s with members %s" % (" ".join(t[:2]), d.get("empty"), sorted(s))
@@ -102,12 +112,17 @@ def oracle_da(cap, lines):
         if name == "emp":
             if _ret(l) != str(len(a)): return "emplace returned %s with %d elements present" % (_ret(l), len(a))
             a.append(args[0])
-        elif name == "add": a.append(args[0])
+        elif name in ("add", "addc"): a.append(args[0])
+        elif name in ("emplv", "empc"):
+            if _ret(l) != str(len(a)): return "emplace returned %s with %d elements present" % (_ret(l), len(a))
+            a.append(a[args[0]])
+        elif name == "addlv": a.append(a[args[0]])
         elif name == "get":
             if _ret(l) != str(a[args[0]]): return "[%d] = %s, expected %d" % (args[0], _ret(l), a[args[0]])
         elif name == "clear": a = []
-        elif name == "addall": a += args
+        elif name in ("addall", "addall2"): a += args
         elif name != "init": continue
+        if "DISAGREE" in l: return "two ways of reading the array disagree: %s" % l
         if d.get("iter") != ",".join(map(str, a)): return "after '%s' iteration yields %s, expected %s" % (" ".join(t[:2]), d.get("iter"), a)
         if d.get("count") != str(len(a)) or d.get("empty") != ("0" if a else "1"): return "count/empty = %s/%s with %d elements" % (d.get("count"), d.get("empty"), len(a))
     return None
